@@ -13,7 +13,7 @@ import (
 )
 
 func init() {
-	register("C16", "Decides only the structural clauses of the result document: (R16.1) the published JSON contract read from the struct tags of the type-checked program: every key of the frozen list is still produced by a field at the same place in the document with the same tag options and JSON kind, internal fields stay tagged '-'; additional keys are reported for information only; (R16.2) TestRunID and every RunID are assigned from a call of the UUID helper that sits inside the per-document / per-run loop body, the helper's value originates from uuid.New(), and Normalize calls all five passes on every path; (R16.3) the only store of true into TracerouteHop.Reachable is control-dependent on that hop's own IPAddress being non-empty. The numeric clauses (min <= avg <= max, loss ratio, jitter bounds, JSON round-trip equality of values) are NOT decided by this family: they quantify over arithmetic on runtime values.", runC16)
+	register("C16", "Decides only the structural clauses of the result document: (R16.1) the published JSON contract read from the struct tags of the type-checked program: every key of the frozen list is still produced by a field at the same place in the document with the same tag options and JSON kind, internal fields stay tagged '-'; additional keys are reported for information only; (R16.2) TestRunID and every RunID are assigned from a call of the UUID helper that sits inside the per-document / per-run loop body, the helper's value originates from uuid.New(), and Normalize calls all five passes on every path; (R16.3) the only store of true into TracerouteHop.Reachable is control-dependent on that hop's own IPAddress being non-empty; (R16.4–R16.6) provenance of the end-to-end statistics: packets sent is len(samples), packets received is the counter that grows with the positive-sample slice under the same `> 0` guard, and min/avg/max/jitter are computed from that slice (avg divides by its length). The numeric clauses (min <= avg <= max, loss ratio, jitter bounds, JSON round-trip equality of values) are NOT decided by this family: they quantify over arithmetic on runtime values.", runC16)
 }
 
 // jsonContract: type → field → (key, omitempty, kind). Frozen from the published documentation of the result document.
@@ -307,8 +307,147 @@ func runC16(c *Ctx) {
 			}
 		}
 	}
+	checkE2eProvenance(c)
 	R.Floor("R16.3:reachable-stores", nreach, 1)
 	R.Check(nreach == 1, "R16.3", "module#reachable-store-census", 0, "", "exactly one site sets Reachable", fmt.Sprintf("%d sites set Reachable; the reviewed set has one", nreach))
+}
+
+// checkE2eProvenance: R16.4–R16.6, the provenance clauses of the end-to-end statistics: packets sent is the sample count, packets
+// received counts exactly the samples that pass the same `> 0` guard that builds the positive-sample slice, and every statistic the
+// property bounds by the positive samples (min, avg, max, jitter) is computed from that slice. The numeric relations themselves are not decided.
+func checkE2eProvenance(c *Ctx) {
+	R := c.R
+	f := c.P.Func("(*result.Results).normalizeE2eProbe")
+	if f == nil {
+		R.Fail("R16.4", "result.normalizeE2eProbe#anchor", 0, "", "anchor (*result.Results).normalizeE2eProbe no longer resolves")
+		return
+	}
+	fn := core.FuncName(f)
+	isRTTs := func(v ssa.Value) bool {
+		ld, ok := v.(*ssa.UnOp)
+		if !ok {
+			return false
+		}
+		fa, ok := ld.X.(*ssa.FieldAddr)
+		return ok && core.FieldName(fa) == "RTTs"
+	}
+	// the positive-sample slice S and the counter that grows with it
+	var S, C *ssa.Phi
+	for _, b := range f.Blocks {
+		for _, in := range b.Instrs {
+			phi, ok := in.(*ssa.Phi)
+			if !ok {
+				continue
+			}
+			for _, e := range phi.Edges {
+				call, ok := e.(*ssa.Call)
+				if !ok {
+					continue
+				}
+				bi, ok := call.Common().Value.(*ssa.Builtin)
+				if !ok || bi.Name() != "append" || call.Common().Args[0] != ssa.Value(phi) {
+					continue
+				}
+				// guard: the append's block is the true successor of `x > 0` with x an element of RTTs, and x is what is appended
+				ab := call.Block()
+				if len(ab.Preds) != 1 {
+					continue
+				}
+				iff, ok := ab.Preds[0].Instrs[len(ab.Preds[0].Instrs)-1].(*ssa.If)
+				if !ok || ab.Preds[0].Succs[0] != ab {
+					continue
+				}
+				bo, ok := iff.Cond.(*ssa.BinOp)
+				if !ok || bo.Op.String() != ">" {
+					continue
+				}
+				if cst, ok := bo.Y.(*ssa.Const); !ok || cst.Value == nil || cst.Float64() != 0 {
+					continue
+				}
+				el, ok := bo.X.(*ssa.UnOp)
+				if !ok {
+					continue
+				}
+				ia, ok := el.X.(*ssa.IndexAddr)
+				if !ok || !isRTTs(ia.X) {
+					continue
+				}
+				S = phi
+				// the counter incremented in the same block
+				for _, in2 := range phi.Block().Instrs {
+					p2, ok := in2.(*ssa.Phi)
+					if !ok || p2 == phi {
+						continue
+					}
+					for _, e2 := range p2.Edges {
+						if inc, ok := e2.(*ssa.BinOp); ok && inc.Op.String() == "+" && inc.X == ssa.Value(p2) && inc.Block() == ab {
+							if cst, ok := inc.Y.(*ssa.Const); ok && cst.Int64() == 1 {
+								C = p2
+							}
+						}
+					}
+				}
+			}
+		}
+	}
+	if S == nil {
+		R.Fail("R16.5", fn+"#positive-samples", f.Pos(), fn, "no slice is built from exactly the samples > 0: the positive-sample set the statistics are defined over is not identifiable (undecided)")
+		return
+	}
+	for _, b := range f.Blocks {
+		for _, in := range b.Instrs {
+			switch x := in.(type) {
+			case *ssa.Store:
+				fa, ok := x.Addr.(*ssa.FieldAddr)
+				if !ok {
+					continue
+				}
+				switch core.FieldName(fa) {
+				case "PacketsSent":
+					ok := false
+					if call, isCall := x.Val.(*ssa.Call); isCall {
+						if bi, isB := call.Common().Value.(*ssa.Builtin); isB && bi.Name() == "len" && isRTTs(call.Common().Args[0]) {
+							ok = true
+						}
+					}
+					R.Check(ok, "R16.4", fn+"#packets-sent", x.Pos(), fn, "PacketsSent = len(RTTs)", "PacketsSent is not the number of RTT samples")
+				case "PacketsReceived":
+					R.Check(C != nil && x.Val == ssa.Value(C), "R16.5", fn+"#packets-received", x.Pos(), fn, "PacketsReceived counts exactly the samples that enter the positive-sample slice", "PacketsReceived is not the counter that grows together with the positive-sample slice (samples > 0)")
+				}
+			case *ssa.Call:
+				if calleeIs(x, "result.calculateJitter") {
+					R.Check(x.Common().Args[0] == ssa.Value(S), "R16.6", fn+"#jitter-input", x.Pos(), fn, "jitter is computed from the positive samples only", "jitter is not computed from the positive-sample slice: lost probes (RTT 0) enter the differences and the bound 0 <= jitter <= max-min over positive samples no longer follows")
+				}
+			case *ssa.IndexAddr:
+				// after the counting loop every element read feeds min/avg/max: it must index the positive-sample slice
+				if _, isF := x.Type().(*types.Pointer).Elem().Underlying().(*types.Basic); isF && isRTTs(x.X) && x.Block() != S.Block() {
+					if loop := loopOfHeader(S.Block()); loop == nil || !loop[x.Block()] {
+						R.Fail("R16.6", fn+"#stat-input", x.Pos(), fn, "a statistic reads the raw sample list instead of the positive samples")
+					}
+				}
+			}
+		}
+	}
+	// avg divides by len(S)
+	okAvg := false
+	for _, b := range f.Blocks {
+		for _, in := range b.Instrs {
+			if st, ok := in.(*ssa.Store); ok {
+				if fa, ok := st.Addr.(*ssa.FieldAddr); ok && core.FieldName(fa) == "Avg" {
+					if q, ok := st.Val.(*ssa.BinOp); ok && q.Op.String() == "/" {
+						if cv, ok := q.Y.(*ssa.Convert); ok {
+							if call, ok := cv.X.(*ssa.Call); ok {
+								if bi, ok := call.Common().Value.(*ssa.Builtin); ok && bi.Name() == "len" && call.Common().Args[0] == ssa.Value(S) {
+									okAvg = true
+								}
+							}
+						}
+					}
+				}
+			}
+		}
+	}
+	R.Check(okAvg, "R16.6", fn+"#avg-divisor", f.Pos(), fn, "average RTT divides by the number of positive samples", "average RTT does not divide by len(positive samples)")
 }
 
 func isNamedStruct(t types.Type, pkg string) bool {
